@@ -741,7 +741,7 @@ def histories(draw, tier="quick"):
     return {"contracts": list(contracts), "view": view, "observe": observe, "ops": ops}
 
 
-PARTS = [Part("histories", strategy=lambda tier: histories(tier), run=run_history, quick=5000, thorough=80000)]
+PARTS = [Part("histories", strategy=lambda tier: histories(tier), run=run_history, quick=6000, thorough=80000)]
 
 
 # ---------------------------------------------------------------------------------------------------
@@ -774,6 +774,10 @@ PARTS = [Part("histories", strategy=lambda tier: histories(tier), run=run_histor
 #       observe="touched"/"end" plus 0-2 leading discontinuations fixed it.
 #   seeded/C14_B (static_hashing adds FutureChain month offset twice)           CAUGHT: was MISSED while all chains
 #       had month=0; chains now carry month 0/1/2.
+#   seeded/C14_F (FutureChain stores normalize()d roll cut-offs)                CAUGHT: was MISSED while every future in
+#       the pool stopped trading at 00:00; the user-defined CL/HO futures (cut-off 16:00 / 13:30:00.5) as plain
+#       futures, span chains and list chains, with clock values at 00:00 of the last trading day, -1 h, -1 us, exact,
+#       +1 us fixed it. seeded/C14_A..E stay CAUGHT, bisect_left (M6) re-checked.
 # Note: st.one_of() de-duplicates repeated strategy objects; op weights use distinct .map wrappers.
-# Unchanged tree: exit 0 for VERIF_SEED=1..5 (6000 histories: 39-51 s wall measured with load average 13-23 on 16
-# cores, ~105 s at load 35; the quick count was then set to 5000), 39-43% of the histories are non-trivial.
+# Unchanged tree: exit 0 for VERIF_SEED=1..5 (6000 histories: 23-24 s wall at load average 13 on the shared 16-core
+# box, 40-65 s when it is oversubscribed two to three times), 36-43% of the histories are non-trivial.
